@@ -176,6 +176,13 @@ func (m *Manager) getPrimaryStatus(status map[string]interface{}) map[string]int
 
 	status["listen_address"] = m.config.ListenAddr
 
+	// Get WAL sequence information before taking the primary's lock: a client write holds
+	// the WAL mutex while it takes that lock
+	currentWalSeq := uint64(0)
+	if m.primary.wal != nil {
+		currentWalSeq = m.primary.wal.GetNextSequence() - 1 // Last used sequence
+	}
+
 	// Get detailed primary status
 	m.primary.mu.RLock()
 	defer m.primary.mu.RUnlock()
@@ -212,19 +219,13 @@ func (m *Manager) getPrimaryStatus(status map[string]interface{}) map[string]int
 		replicas = append(replicas, replicaInfo)
 	}
 
-	// Get WAL sequence information
-	currentWalSeq := uint64(0)
-	if m.primary.wal != nil {
-		currentWalSeq = m.primary.wal.GetNextSequence() - 1 // Last used sequence
-	}
-
 	// Add primary-specific information to status
 	status["replica_count"] = replicaCount
 	status["connected_replica_count"] = connectedReplicas
 	status["active_replica_count"] = activeReplicas
 	status["replicas"] = replicas
 	status["current_wal_sequence"] = currentWalSeq
-	status["last_synced_sequence"] = m.primary.lastSyncedSeq
+	status["last_synced_sequence"] = m.primary.GetLastSequence()
 	status["retention_config"] = map[string]interface{}{
 		"max_age_hours":     m.primary.retentionConfig.MaxAgeHours,
 		"min_sequence_keep": m.primary.retentionConfig.MinSequenceKeep,
